@@ -28,7 +28,7 @@ def build(tier):
     # Exactness of solve().  The obligation calls the two real phases makeArcConsistent() and solveRecursive() in solve()'s order on an object with exactly
     # MAXV variables / MAXC constraints (smaller systems = smaller configurations, so the recursion depth is static); the std::vector::assign boilerplate of
     # solve() itself (values := -1, varToConstr built from the constraints) is done by the harness.
-    configs = [(1, 1, 3, True), (2, 2, 2, True)] if tier == 'quick' else [(1, 1, 3, True), (2, 1, 3, True), (2, 2, 2, True), (2, 2, 3, False)]   # 3-variable configurations exhaust memory in propositional reduction (16 GB): not registered
+    configs = [(1, 1, 3, True), (2, 2, 2, True), (2, 2, 3, False)] if tier == 'quick' else [(1, 1, 3, True), (2, 1, 3, True), (2, 2, 2, True), (2, 2, 3, False)]   # 3-variable configurations exhaust memory in propositional reduction (16 GB): not registered
     BITS = {'_ZN7BitUtil8firstBitEm': 'model_firstBit', '_ZN7BitUtil7lastBitEm': 'model_lastBit', '_ZN7BitUtil8bitCountEm': 'model_bitCount'}
     ut = Unit('bitlemmas', 'C01/tables.cpp', ['h_bits', 'h_bitcount'])
     units.append(ut)
@@ -40,7 +40,7 @@ def build(tier):
         units.append(us)
         arcbound = nc * (1 + nv * w) + 1
         obs.append(Ob('O3-solve-%dv%dc-w%d' % (nv, nc, w), us, 'h_solve', 'arc consistency followed by the backtracking search is exact: true => the returned assignment lies in the domains and satisfies every constraint; false => no assignment exists (universally quantified assignment)',
-           unwind=max(w + 2, nc + 2, 5), unwindset='%s:%d' % (ARC, arcbound), core=core, timeout=1800 if core else 5400, mem_gb=16, backend='kissat',
+           unwind=max(w + 2, nc + 2, 5), unwindset='%s:%d' % (ARC, arcbound), core=core, timeout=1800 if core else (800 if tier == 'quick' else 5400), mem_gb=16, backend='kissat',
            functions=['CspSolver::makeArcConsistent', 'CspSolver::solveRecursive', 'CspSolver::getBitVal', 'BitSet ops'],
            stubs=['the std::vector::assign boilerplate of CspSolver::solve() is performed by the harness (values := -1, varToConstr from the constraints)', 'firstBit/lastBit/bitCount -> ctz/clz/popcount (lemmas L-bits, L-bitcount)'],
            bounds='exactly %d variables and %d constraints, domains inside a window of width %d at any base in [-16,47], |c| <= width+1, all 4 preference orders, any v1/v2 incl. self constraints; arc-consistency loop bound %d = nConstr*(1+total domain size)+1 (enforced by unwinding assertions)' % (nv, nc, w, arcbound)))
